@@ -580,6 +580,75 @@ impl TdCase {
         vec![format!("sqpoll-last-handle closes={closes} left={left} open={}", u8::from(open))]
     }
 
+    /// `teardown defer-drop <n> <b>`: a single-issuer ring with deferred completions
+    /// (IORING_SETUP_DEFER_TASKRUN) of its own: `n` reads in flight are abandoned, then the Ring is
+    /// dropped. The kernel hands the completions of the cancelled reads over only inside
+    /// `io_uring_enter(GETEVENTS)`, at most `b` per call (Linux: 20, probed by `a10h kc`), so the
+    /// drop has to keep entering until a call brings nothing new. Observed: how many of the `n`
+    /// read buffers were released.
+    fn do_defer_drop(&mut self, n: usize, b: u32) -> Vec<String> {
+        let pre = simk::drain_events();
+        simk::purge_closed_except(self.rfd);
+        let held_main = simk::hold_fd(self.rfd);
+        let before: Vec<i32> = simk::with_sim(|s| s.rings.keys().copied().collect());
+        let built = Ring::config().with_submission_queue_size(8).single_issuer().defer_task_run().build();
+        if held_main {
+            simk::release_fd(self.rfd);
+        }
+        let mut ring_b = match built {
+            Ok(r) => r,
+            Err(e) => return vec![format!("defer-drop setup-failed {e}")],
+        };
+        let Some(rfd_b) = simk::with_sim(|s| s.rings.keys().copied().find(|k| !before.contains(k))) else {
+            return vec!["defer-drop no-new-ring".into()];
+        };
+        simk::with_ring(rfd_b, |ring, _| ring.defer_batch = Some(b));
+        let sq_b = ring_b.sq();
+        let raw = simk::with_ring(rfd_b, |ring, _| ring.fresh_fd());
+        let fd: &'static AsyncFd = Box::leak(Box::new(unsafe { AsyncFd::from_raw_fd(raw, sq_b.clone()) }));
+        drop(sq_b);
+        let w = util::waker(990);
+        let mut cx = std::task::Context::from_waker(&w);
+        let mut futs = Vec::new();
+        let mut blocks = Vec::new();
+        for _ in 0..n {
+            let buf: Vec<u8> = Vec::with_capacity(48);
+            if let Some(blk) = track::watch(buf.as_ptr() as usize) {
+                blocks.push(blk);
+            }
+            let mut f: std::pin::Pin<Box<dyn std::future::Future<Output = std::io::Result<Vec<u8>>>>> = Box::pin(fd.read(buf));
+            let _ = f.as_mut().poll(&mut cx);
+            futs.push(f);
+        }
+        // submit them (nothing completes), then abandon all of them: cancel requests are queued
+        let _ = util::catch(std::panic::AssertUnwindSafe(|| ring_b.poll(Some(std::time::Duration::ZERO))));
+        drop(futs);
+        let _ = track::drain_frees();
+        let _ = util::catch(move || drop(ring_b));
+        let freed_now: Vec<u64> = track::drain_frees().iter().map(|b| b.id).collect();
+        let freed = blocks.iter().filter(|b| freed_now.contains(&b.id)).count();
+        let left = simk::with_ring(rfd_b, |ring, _| ring.deferred.len() + ring.cq_count() as usize + ring.overflow.len());
+        if freed != n {
+            self.fail("C12/defer-drop", format!("single-issuer ring with deferred completions: {n} abandoned reads in flight when the Ring was dropped, the kernel handing over at most {b} completions per io_uring_enter: only {freed} of their buffers were released ({left} completions never fetched)"));
+        }
+        // the descriptor: the last handle
+        unsafe { drop(Box::from_raw(std::ptr::from_ref(fd).cast_mut())) };
+        let open = unsafe { simk::raw_syscall(libc::SYS_fcntl, raw as i64, libc::F_GETFD as i64, 0, 0, 0, 0) } >= 0;
+        if open {
+            unsafe { simk::raw_syscall(libc::SYS_close, raw as i64, 0, 0, 0, 0, 0) };
+        }
+        let _ = simk::drain_events();
+        simk::with_sim(|sim| {
+            let mut keep = pre;
+            keep.append(&mut sim.events);
+            sim.events = keep;
+        });
+        simk::purge_closed_except(self.rfd);
+        track::drain_frees();
+        self.feat("defer-drop");
+        vec![format!("defer-drop freed={freed}/{n}")]
+    }
+
     fn fail(&mut self, sig: &str, what: String) {
         if !self.oracle.iter().any(|o| o.1 == sig) {
             self.oracle.push(("C12".into(), sig.into(), what));
@@ -1329,6 +1398,13 @@ impl TdCase {
             ["teardown", "sqpoll-last-handle"] => {
                 out = self.do_sqpoll_last_handle();
             }
+            ["teardown", "defer-drop", n, b] => {
+                let (Ok(n), Ok(b)) = (n.parse::<usize>(), b.parse::<u32>()) else { return bad() };
+                if !(1..=6).contains(&n) || !(1..=4).contains(&b) {
+                    return bad();
+                }
+                out = self.do_defer_drop(n, b);
+            }
             ["teardown", "drop", "ring"] => {
                 if self.ring.is_none() {
                     return bad();
@@ -1693,6 +1769,9 @@ impl Case for TdCase {
         // a ring with a kernel thread / a single-issuer ring, on the side
         if rng.chance(1, 40) {
             return Some("teardown sqpoll-last-handle".into());
+        }
+        if rng.chance(1, 40) {
+            return Some(format!("teardown defer-drop {} {}", rng.range(1, 6), rng.range(1, 4)));
         }
         if rng.chance(1, 60) {
             return Some(format!("teardown single-last-handle {}", if rng.chance(1, 2) { "same" } else { "other" }));
